@@ -374,7 +374,7 @@ func (s *mState) key() string {
 	return sb.String()
 }
 
-var c15ScriptGlobals = map[string][]string{"const": {"cst"}, "copyx": {"gx"}, "addi": {"gi"}, "adds": {"gs"}, "arr": {"arr", "n"}, "map": {"m"}, "loop": {"acc"}, "loopi": {"acc2"}, "ifblk": {"blk"}, "shadow": {"shw"}, "fshadow": {"sf", "gsf"}, "decl": {"late"}, "fail": {"nf"}}
+var c15ScriptGlobals = map[string][]string{"const": {"cst"}, "copyx": {"gx"}, "addi": {"gi"}, "adds": {"gs"}, "arr": {"arr", "n"}, "map": {"m"}, "loop": {"acc"}, "loopi": {"acc2"}, "ifblk": {"blk"}, "shadow": {"shw"}, "fshadow": {"sf", "gsf"}, "fnassign": {"gfa", "setg"}, "decl": {"late"}, "fail": {"nf"}}
 
 // effect of one statement on a store. ok=false: the statement fails at run time.
 func mApply(st gen.C15Stmt, store map[string]plan.Value) bool {
@@ -418,6 +418,9 @@ func mApply(st gen.C15Stmt, store map[string]plan.Value) bool {
 		if get("ini").I != 0 {
 			store["blk"] = plan.Int(get("ini").I + st.C)
 		}
+	case "fnassign":
+		store["setg"] = plan.Value{T: "obj", S: "compiled-function"}
+		store["gfa"] = plan.Int(st.C)
 	case "shadow":
 		store["shw"] = plan.Int(st.C)
 	case "fshadow":
@@ -467,7 +470,7 @@ func mRun(sc *gen.C15Script, start map[string]plan.Value, hostFaultAt int, hostN
 			continue
 		}
 		// multi-effect statements can be cut in the middle by an asynchronous stop
-		if anyPrefix && (st.K == "arr" || st.K == "map" || st.K == "loop" || st.K == "fail" || st.K == "loopi" || st.K == "ifblk" || st.K == "shadow" || st.K == "fshadow") {
+		if anyPrefix && (st.K == "arr" || st.K == "map" || st.K == "loop" || st.K == "fail" || st.K == "loopi" || st.K == "ifblk" || st.K == "shadow" || st.K == "fshadow" || st.K == "fnassign") {
 			for _, part := range mPartials(st, store) {
 				outs = append(outs, mRunOutcome{store: part, failed: true, why: "prefix"})
 			}
@@ -529,6 +532,12 @@ func mPartials(st gen.C15Stmt, store map[string]plan.Value) []map[string]plan.Va
 		}
 	case "ifblk":
 		add(func(m map[string]plan.Value) { m["blk"] = plan.Int(0) })
+	case "fnassign":
+		add(func(m map[string]plan.Value) { m["gfa"] = plan.Int(0) })
+		add(func(m map[string]plan.Value) {
+			m["gfa"] = plan.Int(0)
+			m["setg"] = plan.Value{T: "obj", S: "compiled-function"}
+		})
 	case "shadow":
 		add(func(m map[string]plan.Value) { m["shw"] = plan.Int(0) })
 	case "fshadow":
